@@ -105,6 +105,9 @@ func leaves(t types.Type) []Leaf {
 		}
 		return out
 	case *types.Array:
+		if u.Len() == 0 {
+			return nil
+		}
 		if !isScalar(u.Elem()) {
 			panic(unsupported("array of non-scalar " + t.String()))
 		}
@@ -121,7 +124,27 @@ func unsupported(msg string) error      { return unsupportedErr{msg} }
 
 // typeKey gives a stable short name for a type, used in heap variable names.
 func typeKey(t types.Type) string {
-	return types.TypeString(t, func(p *types.Package) string { return p.Name() })
+	return types.TypeString(canon(t), func(p *types.Package) string { return p.Name() })
+}
+
+// canon removes type aliases (adaptation.CDIDevice = api.CDIDevice) at every level,
+// so that one Go type has exactly one heap-variable name.
+func canon(t types.Type) types.Type {
+	switch u := t.(type) {
+	case *types.Alias:
+		return canon(types.Unalias(u))
+	case *types.Pointer:
+		return types.NewPointer(canon(u.Elem()))
+	case *types.Slice:
+		return types.NewSlice(canon(u.Elem()))
+	case *types.Array:
+		return types.NewArray(canon(u.Elem()), u.Len())
+	case *types.Map:
+		return types.NewMap(canon(u.Key()), canon(u.Elem()))
+	case *types.Chan:
+		return types.NewChan(u.Dir(), canon(u.Elem()))
+	}
+	return t
 }
 
 // sortOf returns the SMT sort of a scalar type.
@@ -264,6 +287,11 @@ func (vc *VC) buildVal(t types.Type, prefix string, leaf func(path string, lt ty
 		return v
 	case *types.Pointer:
 		return Val{T: t, S: leaf(prefix, t), P: &Ptr{Kind: ptrObj, Root: u.Elem()}}
+	case *types.Array:
+		if u.Len() == 0 {
+			return Val{T: t}
+		}
+		return Val{T: t, S: leaf(prefix, t)}
 	default:
 		return Val{T: t, S: leaf(prefix, t)}
 	}
@@ -288,6 +316,11 @@ func eachLeaf(v Val, prefix string, f func(path string, lv Val)) {
 		for i := 0; i < u.Len(); i++ {
 			eachLeaf(v.Fs[i], joinPath(prefix, fmt.Sprintf("%d", i)), f)
 		}
+	case *types.Array:
+		if u.Len() == 0 {
+			return
+		}
+		f(prefix, v)
 	default:
 		f(prefix, v)
 	}
